@@ -121,6 +121,11 @@ def run_job(job):
         sys.stdout = open(os.devnull, "w")
         mod = load_prop(prop_id)
         part = mod.PARTS[part_idx]
+        # every worker starts with a prelude of unrelated public calls, several of them documented to fail: nothing they leave
+        # behind (disabled validators, numpy error modes, caches) may influence the cases that follow
+        from .procs import failed_calls_once
+
+        failed_calls_once()
         import hypothesis
         from hypothesis import HealthCheck, Phase, given, settings
 
